@@ -170,3 +170,71 @@ Qed.
 
 
 
+
+(* ---------- the static validator implies well-formedness for ANY tries of that rank structure ---------- *)
+Lemma participates_heads r t : participates r t = heads r (rem t).
+Proof. reflexivity. Qed.
+
+Lemma rem_advance r c t : participates r t = true -> rem (advance c t) = tl (rem t).
+Proof.
+  unfold participates, advance. destruct t as [rs cu]; cbn [rem cur]. destruct rs as [|r' rs']; [discriminate|].
+  intros _. destruct cu as [v|l]; [reflexivity|]. destruct (lookup c l); reflexivity.
+Qed.
+
+Lemma rem_kill r t : participates r t = true -> rem (kill t) = tl (rem t).
+Proof.
+  unfold participates, kill. destruct t as [rs cu]; cbn [rem cur]. destruct rs as [|r' rs']; [discriminate|]. reflexivity.
+Qed.
+
+Lemma rems_step_term r c tm : map rem (step_term r c tm) = step_rems r (map rem tm).
+Proof.
+  unfold step_term, step_rems. destruct (term_alive r c tm); rewrite !map_map; apply map_ext; intros t;
+    rewrite <- participates_heads; destruct (participates r t) eqn:E; try reflexivity.
+  - apply (rem_advance r c t E).
+  - apply (rem_kill r t E).
+Qed.
+
+Lemma rems_step r c tms : map (map rem) (map (step_term r c) tms) = map (step_rems r) (map (map rem) tms).
+Proof. rewrite !map_map. apply map_ext. intros tm. apply rems_step_term. Qed.
+
+Theorem swf_wf : forall L tms, swf L (map (map rem) tms) = true -> wf L tms.
+Proof.
+  induction L as [|r L IH]; intros tms H; cbn [swf wf] in *.
+  - intros tm Htm t Ht. rewrite forallb_forall in H.
+    specialize (H (map rem tm) (in_map _ _ _ Htm)). rewrite forallb_forall in H.
+    specialize (H (rem t) (in_map _ _ _ Ht)). destruct (rem t); [reflexivity|discriminate].
+  - apply andb_true_iff in H as [H1 H2]. split.
+    + intros tm Htm. rewrite forallb_forall in H1. specialize (H1 (map rem tm) (in_map _ _ _ Htm)).
+      apply existsb_exists in H1 as [rs [Hin Hh]]. apply in_map_iff in Hin as [t [E Ht]]. subst rs.
+      exists t. split; [exact Ht|]. rewrite participates_heads. exact Hh.
+    + intros c. apply IH. rewrite rems_step. exact H2.
+Qed.
+
+Lemma nats_eqb_eq a b : nats_eqb a b = true -> a = b.
+Proof.
+  revert b; induction a as [|x a IH]; intros [|y b] H; cbn in H; try discriminate; [reflexivity|].
+  apply andb_true_iff in H as [H1 H2]. apply Nat.eqb_eq in H1. rewrite (IH b H2). congruence.
+Qed.
+Lemma natss_eqb_eq a b : natss_eqb a b = true -> a = b.
+Proof.
+  revert b; induction a as [|x a IH]; intros [|y b] H; cbn in H; try discriminate; [reflexivity|].
+  apply andb_true_iff in H as [H1 H2]. apply nats_eqb_eq in H1. rewrite (IH b H2). congruence.
+Qed.
+Lemma views_eqb_eq a b : views_eqb a b = true -> a = b.
+Proof.
+  revert b; induction a as [|[r x] a IH]; intros [|[r' y] b] H; cbn in H; try discriminate; [reflexivity|].
+  apply andb_true_iff in H as [H H3]. apply andb_true_iff in H as [H1 H2].
+  apply String.eqb_eq in H1. apply natss_eqb_eq in H2. rewrite (IH b H3). congruence.
+Qed.
+
+(* certified validation: if the validator accepts the rank structure and the per-level co-iteration read off an
+   emitted program, then for ALL input tries with those rank orders the nest computes the sum of products at
+   every point, and the text's co-iteration is exactly the one `run` performs *)
+Theorem nest_okb_sound : forall L tms views,
+  nest_okb L (map (map rem) tms) views = true ->
+  views = expected_views L (map (map rem) tms) /\ forall p, sum_at p (run L tms) = body_den tms p.
+Proof.
+  intros L tms views H. unfold nest_okb in H. apply andb_true_iff in H as [H1 H2]. split.
+  - symmetry. apply views_eqb_eq. exact H2.
+  - apply nest_sound. apply swf_wf. exact H1.
+Qed.
